@@ -509,6 +509,9 @@ def evaluate(ctx, exe, mexe, needs, datasets, tier, rng, stats, samples):
         for m in METHODS:
             cases += cases_for(m, needs.get(m, ""), ds, params, tier, rng)
         results = run_cases(ctx, exe, ds, cases)
+        if any(r["kind"] == "NOTBUILT" for r in results):      # fallback build without the raw eigen family
+            keep = [i for i, r in enumerate(results) if not (r["kind"] == "NOTBUILT" and cases[i]["fam"] == "E")]
+            cases, results = [cases[i] for i in keep], [results[i] for i in keep]
         model = run_model(ctx, mexe, [(c["m"], c["order"], model_entry(c)) for c in cases]) if mexe else None
         judge(ctx, ds, cases, results, needs, model, stats)
         n += len(cases)
@@ -557,7 +560,16 @@ def _run(ctx, restore):
     def build():
         try:
             box["exe"] = ctx.cpp("harness/c13.cpp", sanitize=False, extra=["-O0"])
-        except Exception as ex:   # BuildError or anything else: re-raised in the main thread
+        except vlib.BuildError as ex:
+            # the chains over tapkee's own eigen callbacks are the least tolerant ones (one member function
+            # each): try once more without them, so that a mis-routing library can still be RUN
+            box["raw_err"] = str(ex)[-1200:]
+            try:
+                box["exe"] = ctx.cpp("harness/c13.cpp", name="c13_noraw", sanitize=False, extra=["-O0"],
+                                     defines=["C13_NO_RAW"])
+            except Exception as ex2:
+                box["err"] = ex2
+        except Exception as ex:   # anything else: re-raised in the main thread
             box["err"] = ex
     th = threading.Thread(target=build)
     th.start()
@@ -577,6 +589,10 @@ def _run(ctx, restore):
             raise box["err"]
         raise vlib.BuildError("C++ build raised %r" % (box["err"],))
     exe = box["exe"]
+    no_raw = "raw_err" in box
+    if no_raw:
+        ctx.unshown("the harness no longer compiles with tapkee's own eigen callbacks attached through the chain "
+                    "(built without that family): " + box["raw_err"][-600:])
 
     needs = impl_needs(ctx, exe)
     if len(needs) != len(METHODS):
